@@ -699,16 +699,32 @@ func dirUseArgLoop(c *Ctx, r *Report, rule string) {
 		return
 	}
 	loops := loopsOf(vdu)
-	var find, coerce ssa.CallInstruction
-	for _, ci := range callsIn(vdu) {
-		if innermostLoop(loops, ci.Block()) == nil {
+	// the lookup: what yields the declared *Arg for the use's argument inside the loop - a function of the package
+	// that returns *Arg (findArg, the argument list's get) or the table lookup itself
+	type lookupInstr interface {
+		ssa.Instruction
+		ssa.Value
+	}
+	var find lookupInstr
+	var coerce ssa.CallInstruction
+	for _, b := range vdu.Blocks {
+		if innermostLoop(loops, b) == nil {
 			continue
 		}
-		if cal := ci.Common().StaticCallee(); cal != nil && cal.Name() == "findArg" {
-			find = ci
-		}
-		if ci.Common().IsInvoke() && ci.Common().Method.Name() == "CoerceIn" {
-			coerce = ci
+		for _, in := range b.Instrs {
+			switch t := in.(type) {
+			case *ssa.Call:
+				if cal := t.Call.StaticCallee(); cal != nil && c.inPkg(cal) && c.isNamed(t.Type(), "Arg") && find == nil {
+					find = t
+				}
+				if t.Call.IsInvoke() && t.Call.Method.Name() == "CoerceIn" {
+					coerce = t
+				}
+			case *ssa.Lookup:
+				if c.isNamed(t.Type(), "Arg") && find == nil {
+					find = t
+				}
+			}
 		}
 	}
 	if find == nil || coerce == nil {
@@ -717,15 +733,15 @@ func dirUseArgLoop(c *Ctx, r *Report, rule string) {
 	}
 	r.check(rule, fnName(vdu)+": argument loop looks every argument up and coerces its value", vdu.Pos(), true, "")
 	anyPol := map[*ssa.If]bool{} // branches both of whose outcomes lead to the call: polarity not demanded
-	inLoopGuards := func(ci ssa.CallInstruction) []guard {
-		l := innermostLoop(loops, ci.Block())
+	inLoopGuardsAt := func(blk *ssa.BasicBlock) []guard {
+		l := innermostLoop(loops, blk)
 		var out []guard
-		for _, g := range blockGuards(ci.Block()) {
+		for _, g := range blockGuards(blk) {
 			if g.at != nil && l.body[g.at.Block()] {
 				out = append(out, normGuard(g))
 			}
 		}
-		for _, d := range loopControlDeps(l, ci.Block()) {
+		for _, d := range loopControlDeps(l, blk) {
 			if d.known {
 				out = append(out, normGuard(d.guard()))
 			} else {
@@ -736,7 +752,7 @@ func dirUseArgLoop(c *Ctx, r *Report, rule string) {
 		return out
 	}
 	bad := ""
-	for _, g := range inLoopGuards(find) {
+	for _, g := range inLoopGuardsAt(find.Block()) {
 		if isRangeCond(g.cond) {
 			continue
 		}
@@ -745,8 +761,8 @@ func dirUseArgLoop(c *Ctx, r *Report, rule string) {
 	r.check(rule, fnName(vdu)+": every argument of a directive use is looked up in the directive's declaration", find.Pos(), bad == "",
 		"the lookup is skipped depending on "+bad+": an argument the directive does not declare is accepted when that test routes it round the lookup (e.g. when its value is a variable)")
 	bad = ""
-	findRes := find.(ssa.Value)
-	for _, g := range inLoopGuards(coerce) {
+	findRes := ssa.Value(find)
+	for _, g := range inLoopGuardsAt(coerce.Block()) {
 		if isRangeCond(g.cond) {
 			continue
 		}
